@@ -264,10 +264,82 @@ func (g *skelGen) stmt(s ast.Stmt) (out []string) {
 	return nil
 }
 
+// structFieldsByType lists the field names of a struct of the file, keyed by the printed type.
+func structFieldsByType(f *ast.File, typeName string) map[string][]string {
+	out := map[string][]string{}
+	for _, d := range f.Decls {
+		gd, ok := d.(*ast.GenDecl)
+		if !ok || gd.Tok != token.TYPE {
+			continue
+		}
+		for _, sp := range gd.Specs {
+			ts := sp.(*ast.TypeSpec)
+			st, isStruct := ts.Type.(*ast.StructType)
+			if !isStruct || ts.Name.Name != typeName {
+				continue
+			}
+			for _, fl := range st.Fields.List {
+				t := normalize(fl.Type)
+				if _, isStar := fl.Type.(*ast.StarExpr); isStar {
+					t = "*" + normalize(fl.Type.(*ast.StarExpr).X)
+				}
+				switch x := fl.Type.(type) {
+				case *ast.MapType:
+					t = "map"
+				case *ast.ArrayType:
+					if x.Len == nil {
+						t = "[]" + normalize(x.Elt)
+					}
+				}
+				for _, n := range fl.Names {
+					out[t] = append(out[t], n.Name)
+				}
+			}
+		}
+	}
+	return out
+}
+
+// cacheConfigByType finds the roles of the fields of cache.cache and cache.item by their TYPES (the only
+// sync.Mutex is the lock, the only map the item table, the only listItem the usage list, the only uint
+// the size, the only Config the configuration; in item the only listItem is the list node and the
+// []byte fields are the immutable key and value), so that renaming a field does not matter.  ok is
+// false when a role is not unique; the caller then keeps the names it was written with.
+func cacheConfigByType(f *ast.File, cfg skelConfig) (skelConfig, bool) {
+	c, it := structFieldsByType(f, "cache"), structFieldsByType(f, "item")
+	one := func(m map[string][]string, t string) (string, bool) {
+		if len(m[t]) == 1 {
+			return m[t][0], true
+		}
+		return "", false
+	}
+	lock, ok1 := one(c, "sync.Mutex")
+	items, ok2 := one(c, "map")
+	usage, ok3 := one(c, "listItem")
+	size, ok4 := one(c, "uint")
+	conf, ok5 := one(c, "Config")
+	node, ok6 := one(it, "listItem")
+	if !(ok1 && ok2 && ok3 && ok4 && ok5 && ok6) || len(it["[]byte"]) == 0 {
+		return cfg, false
+	}
+	cfg.lock = "@." + lock
+	cfg.guarded = map[string]string{"@." + items: "items", "@." + size: "size", "@." + usage: "usage"}
+	cfg.nodeSel = map[string]string{node: "usage"}
+	cfg.callback = []string{"@." + conf + ".OnDelete"}
+	cfg.immutable = map[string]bool{}
+	for _, n := range it["[]byte"] {
+		cfg.immutable[n] = true
+	}
+	return cfg, true
+}
+
 func genSkeletons(repo string, cfg skelConfig) (defs string, names []string, err error) {
 	_, f, perr := parseFile(repo, cfg.file)
 	if perr != nil {
 		return "", nil, perr
+	}
+	if cfg.recvType == "cache" {
+		cfg, _ = cacheConfigByType(f, cfg)
 	}
 	defer func() {
 		if r := recover(); r != nil {
